@@ -101,8 +101,10 @@ Theorem C16_install_contained : forall w root src ow,
 Proof. exact install_contained_explicit. Qed.
 Print Assumptions C16_install_contained.
 
-(* a source all of whose notation-<name> files have refused names installs
-   nothing and touches nothing outside the source *)
+(* a source without an acceptable name installs nothing and touches nothing
+   outside the source (candidates = the offered names the validation accepts;
+   stronger, with no execution and no change at all:
+   C16_install_rejected_no_effect in props/C16_Audit.v) *)
 Theorem C16_install_invalid_name : forall w root src ow,
   is_abs root = true -> src <> "/" ->
   (forall n, In n (candidates w src) -> valid_name n = false) ->
@@ -175,10 +177,11 @@ Example C16_example_accepted :
   /\ model j = mk_obs ENone MNone [] ["/v/p/good"; "/v/p/good/notation-good"] [] [].
 Proof. vm_compute. repeat split; auto. Qed.
 
-(* Install runs the source file (to read its metadata) before the derived name
-   is examined: for Install, "no process execution" holds only in the form of
-   C16_install_invalid_name (nothing outside the source is touched) *)
-Example C16_install_runs_source_before_name_check :
-  let r := install witness_fs "/p/r" "/s/notation-.." true in
-  r_err r = EInvalid /\ In (EExec "/s/notation-.." true) (r_log r) /\ r_fs r = witness_fs.
-Proof. exact install_runs_source_witness. Qed.
+(* (Install used to run the source file before it examined the derived name;
+   since /repo 30cc14e a file whose name part is refused is no plugin executable.
+   The full clause for Install and the refutation for the earlier code are in
+   props/C16_Audit.v: C16_install_rejected_no_effect, ..._v0_refuted.) *)
+Example C16_install_refused_name_nothing_runs :
+  let w := [("/s", NDir); ("/s/notation-..", NFile true (Some ("..", 1%N))); ("/p", NDir); ("/p/r", NDir)] in
+  install w "/p/r" "/s/notation-.." true = mk_out EOther MNone w [EStat "/s/notation-.."] [].
+Proof. vm_compute. reflexivity. Qed.
